@@ -181,6 +181,8 @@ def ascii_table(
     if limit > 0 and not top_and_tail:
         if is_lazy:
             t = DataFrame(rows=[row for row in islice(table._rows, limit)], schema=table.schema)
+            # the widest label is the number of rows shown
+            lazy_length = t.rowcount - 1
         else:
             t = table.slice(length=limit)
     elif limit > 0 and top_and_tail:
